@@ -96,6 +96,18 @@ class Oc(_APO):
         return ['Oc', sorted(self.tags)]
 
 
+class Oe:
+    """A plain class, NOT a ParameterObject: in storage keys it is represented by the text of its config definition
+    (`<class path>(<args>, <kw>=<value> in written order)`)."""
+    def __init__(self, k, w=5, tag='t'):
+        self.k = k
+        self.w = w
+        self.tag = tag
+
+    def tcv_canon(self):
+        return ['Oe', _c(self.k), _c(self.w), _c(self.tag)]
+
+
 class Od(_PO, _tc.chain.ChainObject):
     """A parameter object that looks at the chain it is used in (C19)."""
     def __init__(self, tag):
@@ -153,6 +165,8 @@ def module_source(program, mi):
             lines.append(f'        name = {t["name"]!r}')
         if t['group'] and t['base'] == 'Task':
             lines.append(f'        task_group = {t["group"]!r}')
+        if t.get('meta_group') and t['base'] != 'Task':
+            lines.append(f'        task_group = {t["meta_group"]!r}')
         if t['abstract']:
             lines.append('        abstract = True')
         in_list, par_list = [], []
